@@ -6,6 +6,7 @@ import IpldModel.Lemmas.SliceBounds
 import IpldModel.Lemmas.WalkOrder
 import IpldModel.Lemmas.WalkNodup2
 import IpldModel.Lemmas.WalkExamples
+import IpldModel.Lemmas.WalkVisits
 namespace Ipld.Props.C07
 open Ipld Ipld.Sel Ipld.Walk
 
@@ -173,5 +174,235 @@ example : (visitsOf (walk {} 9 none none (.map (.cons [0x61] (.int 1) .nil))
       (.fields (.cons [0x61] (.matcher none) (.cons [0x61] (.matcher none) .nil)))).events).map (·.1)
     = [[], [.str [0x61]], [.str [0x61]]] := by decide +kernel
 end Examples
+
+/-! ### what a selector denotes, and completeness of the walk (C07-c)
+
+The theorems above say that whatever the walk visits is a position it can reach (`Reach`), in parent-first
+order.  The ones below compare the walk with an independent, path-indexed denotation
+(`Spec/SelectorDenote.lean`): `selectorAt store s root path` follows `path` from `root` under `s` (random-access
+lookup of each segment, `Explore` for the residual selector, a link child replaced by its block) and
+`Selected store s root path` says it gets there.  `denote store depth s root` lists the selected positions of
+depth `< depth` in document order.
+
+Hypotheses, all explicit:
+  * `Unrestricted cfg`: `cfg.startAt = []`, `cfg.skip = []`, `cfg.linkOnce = false`; and no budgets (`none none`);
+  * `root.NoDup`, `StoreNoDup cfg.store`: no map of the root or of a stored block has a key twice (what C12 proves
+    of every built node).  NEEDED: a path does not name a position otherwise (example below);
+  * `(walk …).outcome = .ok ()`: enough fuel, every explored link loadable, no failing `Explore`, no ADL clause.
+    `walk_ok_is_clean` / `clean_walk_ok` say this is exactly `Spec.cleanFrom` plus enough fuel. -/
+
+section Complete
+open Ipld.Spec
+
+/-- **C07-c3.**  A successful unrestricted walk visits exactly the enumeration `denote` (to any depth `d` at
+    least the fuel: the selection has ended by then): the same positions, with the same node and reason, in
+    the same order, with the same multiplicity. -/
+theorem visits_eq_denote (cfg : Cfg) (hu : Unrestricted cfg) (hstore : StoreNoDup cfg.store) (root : DM)
+    (hroot : root.NoDup) (s : S) (fuel : Nat) (hok : (walk cfg fuel none none root s).outcome = .ok ())
+    (d : Nat) (hd : fuel ≤ d) :
+    visitsOf (walk cfg fuel none none root s).events = denote cfg.store d s root :=
+  walk_visits_eq_denote cfg hu hstore root hroot s fuel hok d hd
+
+/-- What `denote` lists, without reference to any traversal: the entry for every path of length `< d` that
+    `selectorAt` reaches, carrying `visitOf` of the node and residual selector found there. -/
+theorem denote_characterised (store : Store) (d : Nat) (s : S) (root : DM) (x : Path × DM × Reason) :
+    x ∈ denote store d s root ↔
+      ∃ n' s', x.1.length < d ∧ selectorAt store s root x.1 = some (n', s') ∧ x = visitOf x.1 n' s' :=
+  mem_denote store d s root x
+
+/-- **C07-c1.**  Soundness and completeness in one: a path is visited iff the selector leads to it. -/
+theorem visited_iff_selected (cfg : Cfg) (hu : Unrestricted cfg) (hstore : StoreNoDup cfg.store) (root : DM)
+    (hroot : root.NoDup) (s : S) (fuel : Nat) (hok : (walk cfg fuel none none root s).outcome = .ok ())
+    (p : Path) :
+    (∃ n r, (p, n, r) ∈ visitsOf (walk cfg fuel none none root s).events) ↔ Selected cfg.store s root p :=
+  Walk.visited_iff_selected cfg hu hstore root hroot s fuel hok p
+
+/-- **C07-c2.**  The visit at `p` reports the node `selectorAt` reaches there, or `Match`'s answer for it (the
+    slice, for a matcher with a subset) when the residual selector decides it; the reason is `matched`
+    exactly in that case. -/
+theorem visit_reason (cfg : Cfg) (hu : Unrestricted cfg) (hstore : StoreNoDup cfg.store) (root : DM)
+    (hroot : root.NoDup) (s : S) (fuel : Nat) (hok : (walk cfg fuel none none root s).outcome = .ok ())
+    (p : Path) (m : DM) (r : Reason) (h : (p, m, r) ∈ visitsOf (walk cfg fuel none none root s).events) :
+    ∃ n s', selectorAt cfg.store s root p = some (n, s') ∧ m = (matchNode s' n).getD n ∧
+      (r = .matched ↔ decides s' n = true) :=
+  Walk.visit_reason cfg hu hstore root hroot s fuel hok p m r h
+
+/-- Completeness with node and reason: the position `selectorAt` reaches at `p` is visited, as `visitOf` says. -/
+theorem selected_is_visited (cfg : Cfg) (hu : Unrestricted cfg) (hstore : StoreNoDup cfg.store) (root : DM)
+    (hroot : root.NoDup) (s : S) (fuel : Nat) (hok : (walk cfg fuel none none root s).outcome = .ok ())
+    (p : Path) (n : DM) (s' : S) (h : selectorAt cfg.store s root p = some (n, s')) :
+    visitOf p n s' ∈ visitsOf (walk cfg fuel none none root s).events :=
+  selected_visited cfg hu hstore root hroot s fuel hok p n s' h
+
+/-- Soundness holds for EVERY walk (any configuration, budgets, fuel, outcome): what is visited is selected and
+    is reported as the spec says.  Only completeness needs the unrestricted, successful walk. -/
+theorem visited_is_selected_any (cfg : Cfg) (hstore : StoreNoDup cfg.store) (root : DM) (hroot : root.NoDup)
+    (s : S) (fuel : Nat) (nb lb : Option Int) (x : Path × DM × Reason)
+    (h : x ∈ visitsOf (walk cfg fuel nb lb root s).events) :
+    ∃ n s', selectorAt cfg.store s root x.1 = some (n, s') ∧ x = visitOf x.1 n s' :=
+  visited_selectorAt_any cfg hstore root hroot s fuel nb lb x h
+
+/-- The walk's own account of the positions it can arrive at (`Reach`, used by the theorems above) is the
+    path-indexed `selectorAt`. -/
+theorem reach_is_selectorAt (cfg : Cfg) (hk : cfg.skip = []) (root : DM) (s0 : S) (hroot : root.NoDup)
+    (hstore : StoreNoDup cfg.store) (path : Path) (n : DM) (s : S) :
+    Reach cfg root s0 path n s ↔ selectorAt cfg.store s0 root path = some (n, s) :=
+  reach_iff_selectorAt hk hroot hstore path n s
+
+/-! #### order and exactly-once -/
+
+/-- The visited paths are sorted by document order `DocBefore`: an ancestor before its descendants, and below a
+    common ancestor the branch through the segment tried earlier first (the node's own order for selectors
+    without explicit interests, the interest order otherwise). -/
+theorem visits_doc_sorted (cfg : Cfg) (hu : Unrestricted cfg) (hstore : StoreNoDup cfg.store) (root : DM)
+    (hroot : root.NoDup) (s : S) (fuel : Nat) (hok : (walk cfg fuel none none root s).outcome = .ok ()) :
+    ((visitsOf (walk cfg fuel none none root s).events).map (·.1)).Pairwise (DocBefore cfg.store s root) :=
+  walk_visits_sorted cfg hu hstore root hroot s fuel hok
+
+/-- `DocBefore` is asymmetric (so irreflexive) when no selected position tries a segment twice. -/
+theorem doc_before_asymm (store : Store) (s : S) (root : DM) (hnd : SegsNodup store s root) (p q : Path)
+    (h : DocBefore store s root p q) : ¬ DocBefore store s root q p :=
+  docBefore_asymm hnd h
+
+/-- `SegsNodup` holds when nodes have no duplicate keys and explicit interest lists no duplicate segments
+    (unions de-duplicate theirs: `union_interests_nodup`). -/
+theorem segs_nodup_of (store : Store) (hstore : StoreNoDup store) (root : DM) (hroot : root.NoDup) (s : S)
+    (hsel : ∀ q n s', selectorAt store s root q = some (n, s') → ∀ l, interests s' = some l → l.Nodup) :
+    SegsNodup store s root :=
+  segsNodup_of hstore hroot hsel
+
+/-- The visit sequence is DETERMINED by the spec: any list holding exactly the selected paths and sorted by
+    document order is the list of visited paths. -/
+theorem visits_unique (cfg : Cfg) (hu : Unrestricted cfg) (hstore : StoreNoDup cfg.store) (root : DM)
+    (hroot : root.NoDup) (s : S) (fuel : Nat) (hok : (walk cfg fuel none none root s).outcome = .ok ())
+    (hnd : SegsNodup cfg.store s root) (L : List Path) (hmem : ∀ p, p ∈ L ↔ Selected cfg.store s root p)
+    (hsorted : L.Pairwise (DocBefore cfg.store s root)) :
+    (visitsOf (walk cfg fuel none none root s).events).map (·.1) = L :=
+  walk_visits_unique cfg hu hstore root hroot s fuel hok hnd L hmem hsorted
+
+/-- Exactly once: a selected path is visited once, any other path never. -/
+theorem visited_exactly_once (cfg : Cfg) (hu : Unrestricted cfg) (hstore : StoreNoDup cfg.store) (root : DM)
+    (hroot : root.NoDup) (s : S) (fuel : Nat) (hok : (walk cfg fuel none none root s).outcome = .ok ())
+    (hnd : SegsNodup cfg.store s root) (p : Path) :
+    ((visitsOf (walk cfg fuel none none root s).events).map (·.1)).count p =
+      if Selected cfg.store s root p then 1 else 0 :=
+  walk_visit_count cfg hu hstore root hroot s fuel hok hnd p
+
+/-! #### when the walk succeeds -/
+
+/-- A successful walk with fuel `f` means the selection is clean to depth `f`: no ADL clause is reached, no
+    `Explore` fails, every explored link is in the store, and nothing is selected at depth `f` or below. -/
+theorem walk_ok_is_clean (cfg : Cfg) (hu : Unrestricted cfg) (hstore : StoreNoDup cfg.store) (root : DM)
+    (hroot : root.NoDup) (s : S) (fuel : Nat) (hok : (walk cfg fuel none none root s).outcome = .ok ()) :
+    cleanFrom cfg.store fuel root s = true :=
+  clean_of_walk_ok cfg hu hstore root hroot s fuel hok fuel (Nat.le_refl _)
+
+/-- Conversely a selection clean to depth `d`, none of whose positions tries more than `W` segments, is walked
+    successfully with any fuel from `d * (W + 3)`: the `ok` hypothesis of the theorems above is satisfiable
+    whenever it should be. -/
+theorem clean_walk_ok (cfg : Cfg) (hu : Unrestricted cfg) (hstore : StoreNoDup cfg.store) (root : DM)
+    (hroot : root.NoDup) (s : S) (d W : Nat) (hc : cleanFrom cfg.store d root s = true)
+    (hw : WidthLe cfg.store W root s) (fuel : Nat) (hf : d * (W + 3) ≤ fuel) :
+    (walk cfg fuel none none root s).outcome = .ok () :=
+  walk_ok_of_clean cfg hu hstore root hroot s d W hc hw fuel hf
+
+/-! #### C07-c4: the property text, selector by selector -/
+
+/-- The explore-all-recursively selector `R(none, |[., a(@)])` (and any selector that explores every child with
+    itself and matches every node) visits every position of the graph reachable through loadable links
+    (`nodeAt`), reports the node there as a match, visits no path twice, and does so in pre-order
+    (`preorder`: a node, then its children's subtrees in the node's own order). -/
+theorem explore_all_visits_every_node (cfg : Cfg) (hu : Unrestricted cfg) (hstore : StoreNoDup cfg.store)
+    (root : DM) (hroot : root.NoDup) (s : S) (hs : ExploresAll s) (fuel : Nat)
+    (hok : (walk cfg fuel none none root s).outcome = .ok ()) :
+    (∀ p, (∃ n r, (p, n, r) ∈ visitsOf (walk cfg fuel none none root s).events) ↔
+      (nodeAt cfg.store root p).isSome = true) ∧
+    (∀ p n r, (p, n, r) ∈ visitsOf (walk cfg fuel none none root s).events →
+      nodeAt cfg.store root p = some n ∧ r = .matched) ∧
+    ((visitsOf (walk cfg fuel none none root s).events).map (·.1)).Nodup ∧
+    (∀ d, fuel ≤ d → visitsOf (walk cfg fuel none none root s).events =
+      (preorder cfg.store d [] root).map fun x => (x.1, x.2, Reason.matched)) :=
+  walk_all_visits cfg hu hstore root hroot s fuel hok hs
+
+/-- the selector of the examples is of that kind -/
+theorem selAll_explores_all : ExploresAll Ex.selAll := selAll_exploresAll
+
+/-- An ExploreFields selector whose fields carry matchers visits exactly the root and the named children that
+    exist (`LookupBySegment` of the key, taken as a string segment, finds them; a link child stands for its
+    block, which the successful walk has loaded). -/
+theorem fields_selector_visits_only_named (cfg : Cfg) (hu : Unrestricted cfg) (hstore : StoreNoDup cfg.store)
+    (root : DM) (hroot : root.NoDup) (fs : SFields) (hfs : AllMatchers fs) (fuel : Nat)
+    (hok : (walk cfg fuel none none root (.fields fs)).outcome = .ok ()) (p : Path) :
+    (∃ n r, (p, n, r) ∈ visitsOf (walk cfg fuel none none root (.fields fs)).events) ↔
+      p = [] ∨ ∃ k v, p = [.str k] ∧ k ∈ fieldKeys fs ∧ lookupBySegment root (.str k) = some v :=
+  walk_fields_visits cfg hu hstore root hroot fs hfs fuel hok p
+
+/-- In general a field selector selects the root, and below a named child that exists whatever that field's
+    selector selects there. -/
+theorem fields_selected (store : Store) (fs : SFields) (root : DM) (p : Path) :
+    Selected store (.fields fs) root p ↔
+      p = [] ∨ ∃ k rest v n' s', p = .str k :: rest ∧ k ∈ fieldKeys fs ∧ lookupBySegment root (.str k) = some v ∧
+        deref store v = some n' ∧ fieldLookup fs k = some s' ∧ Selected store s' n' rest :=
+  selected_fields store fs root p
+
+/-- With depth limit `d` the explore-all selector `R(depth d, |[., a(@)])` visits the positions of the graph at
+    depth `< d` — and the root in any case: a limit of 0 (or a negative one) behaves like a limit of 1. -/
+theorem recursion_limit_depth (cfg : Cfg) (hu : Unrestricted cfg) (hstore : StoreNoDup cfg.store) (root : DM)
+    (hroot : root.NoDup) (d : Int) (fuel : Nat)
+    (hok : (walk cfg fuel none none root (recAll d)).outcome = .ok ()) (p : Path) :
+    (∃ n r, (p, n, r) ∈ visitsOf (walk cfg fuel none none root (recAll d)).events) ↔
+      (nodeAt cfg.store root p).isSome = true ∧ (p = [] ∨ (p.length : Int) < d) :=
+  walk_recAll_visits cfg hu hstore root hroot d fuel hok p
+
+section Examples
+open Ipld.Walk.Ex
+/-- the hypotheses hold of the example graph: the walk succeeds, and `clean_walk_ok` predicts it -/
+example : (walk Ex.cfg 20 none none Ex.root selAll).outcome = .ok () := by decide +kernel
+example : (walk Ex.cfg 20 none none Ex.root selAll).outcome = .ok () :=
+  clean_walk_ok Ex.cfg Ex.unrestricted Ex.store_noDup Ex.root Ex.root_noDup selAll 3 2 (by decide)
+    (widthLe_of_within _ 2 3 _ _ (by decide) (by decide)) 20 (by decide)
+example : cleanFrom Ex.cfg.store 3 Ex.root selAll = true := by decide
+example : cleanFrom Ex.cfg.store 2 Ex.root selAll = false := by decide   -- the selection is 3 levels deep
+/-- selected / not selected, and what is found at a selected path (behind the link: the block) -/
+example : Selected Ex.cfg.store selAll Ex.root [.str [0x6c], .str [0x78]] := by decide
+example : ¬ Selected Ex.cfg.store selAll Ex.root [.str [0x6c], .str [0x79]] := by decide
+example : (selectorAt Ex.cfg.store selAll Ex.root [.str [0x6c]]).map (·.1) = some Ex.blk := by decide
+/-- `denote` on the example graph, and the conclusion of `visits_eq_denote` checked directly -/
+example : denote Ex.cfg.store 20 selAll Ex.root =
+    [([], Ex.root, .matched), ([.str [0x61]], .list (.cons (.int 1) (.cons (.int 2) .nil)), .matched),
+     ([.str [0x61], .idx 0], .int 1, .matched), ([.str [0x61], .idx 1], .int 2, .matched),
+     ([.str [0x6c]], Ex.blk, .matched), ([.str [0x6c], .str [0x78]], .str [0x68, 0x69], .matched)] := by decide
+example : visitsOf (walk Ex.cfg 20 none none Ex.root selAll).events = denote Ex.cfg.store 20 selAll Ex.root := by
+  decide +kernel
+/-- the no-duplicate-keys hypothesis is needed: over `{"a": 1, "a": [2]}` the walk succeeds, visits `a` twice and
+    `a/0` below the second, which no path-indexed reading can select -/
+example : (walk {} 20 none none rootDup selAll).outcome = .ok () := by decide +kernel
+example : (visitsOf (walk {} 20 none none rootDup selAll).events).map (·.1) =
+    [[], [.str [0x61]], [.str [0x61]], [.str [0x61], .idx 0]] := by decide +kernel
+example : ¬ Selected [] selAll rootDup [.str [0x61], .idx 0] := by decide
+/-- the `ok` hypothesis is needed: with an empty store the link cannot be loaded, the walk stops, and the
+    selection is not clean -/
+example : (walk {} 20 none none Ex.root selAll).outcome = .error .load := by decide +kernel
+example : cleanFrom [] 20 Ex.root selAll = false := by decide
+/-- a block that is itself a bare link is a position as the link node (spec and walk agree) -/
+example : (selectorAt store2 selAll root2 [.str [0x6c]]).map (·.1) = some (.link [2]) := by decide
+example : visitsOf (walk { store := store2 } 20 none none root2 selAll).events =
+    [([], root2, .matched), ([.str [0x6c]], .link [2], .matched)] := by decide +kernel
+/-- fields `l`, `z` over the example root: the root (a candidate) and `l` (its block, matched); `z` does not exist -/
+example : (walk Ex.cfg 20 none none Ex.root (.fields fsEx)).outcome = .ok () := by decide +kernel
+example : visitsOf (walk Ex.cfg 20 none none Ex.root (.fields fsEx)).events =
+    [([], Ex.root, .candidate), ([.str [0x6c]], Ex.blk, .matched)] := by decide +kernel
+/-- a field selector reaches into a list when the key reads as an index (the path keeps the string segment) -/
+example : visitsOf (walk {} 20 none none (.list (.cons (.int 7) .nil))
+      (.fields (.cons [0x30] (.matcher none) .nil))).events =
+    [([], .list (.cons (.int 7) .nil), .candidate), ([.str [0x30]], .int 7, .matched)] := by decide +kernel
+/-- depth limits 0 and below still visit the root -/
+example : (visitsOf (walk Ex.cfg 20 none none Ex.root (recAll 0)).events).map (·.1) = [[]] := by decide +kernel
+example : (visitsOf (walk Ex.cfg 20 none none Ex.root (recAll (-5))).events).map (·.1) = [[]] := by decide +kernel
+example : (visitsOf (walk Ex.cfg 20 none none Ex.root (recAll 2)).events).map (·.1) =
+    [[], [.str [0x61]], [.str [0x6c]]] := by decide +kernel
+end Examples
+
+end Complete
 
 end Ipld.Props.C07
